@@ -103,6 +103,9 @@ func (p *TCPPeer) TakeFrames() [][]byte {
 	return out
 }
 
+// Len is the number of collected bytes not taken yet.
+func (p *TCPPeer) Len() int { p.mu.Lock(); defer p.mu.Unlock(); return len(p.buf) }
+
 func (p *TCPPeer) EOF() bool { p.mu.Lock(); defer p.mu.Unlock(); return p.eof }
 
 // Write sends bytes to the connection (blocks until the connection's reader consumed them).
